@@ -6,6 +6,7 @@ extern crate tracing;
 
 #[allow(dead_code)]
 mod acpfx;
+mod bkp;
 mod checks;
 mod fixtures;
 #[allow(dead_code)]
